@@ -2,6 +2,7 @@ import Driver.Util
 import Crusta.Spec.Oracle
 import Driver.Enc
 import Driver.Trace
+import Crusta.Model.Graph
 
 open Crusta Driver
 
@@ -129,6 +130,11 @@ def runSolve (c : Case) : List String := Id.run do
     | "fw" :: rest =>
       af := ⟨natOf (kvGetD rest "n" "0"), attList (kvGetD rest "atts" "")⟩
       if !af.wfB then out := "verdict BAD framework dump is not well-formed" :: out
+      else if af.n ≤ 9 then
+        let cs := (allComps af.view).filterMap id
+        let parts := cs.map (fun c =>
+          s!"{(extsCF c.af).length},{(extsADM c.af).length},{(extsCO c.af).length},{(extsPR c.af).length},{c.af.n}")
+        out := ("counts " ++ ";".intercalate parts) :: out
     | "query" :: rest =>
       let sem := (Sem.ofString? (kvGetD rest "sem" "")).getD .GR
       let task := (Task.ofString? (kvGetD rest "task" "")).getD .SE
